@@ -1413,6 +1413,11 @@ func c10GenSorting(c *core.Ctx, cols []c10Col) []c10Sort {
 
 func c10GenCols(c *core.Ctx) []c10Col {
 	cols := []c10Col{{Name: "a_id"}}
+	if c.Rng.Intn(2) == 0 {
+		// a repeated column BEFORE the candidate sorting columns: the values of
+		// a row are then not at the index of their column
+		cols = append(cols, c10Col{Name: "b_r", Rep: true, MaxDef: 1})
+	}
 	n := 1 + c.Rng.Intn(4)
 	for i := 0; i < n; i++ {
 		col := c10Col{Name: fmt.Sprintf("c%d", i+1), Str: c.Rng.Intn(2) == 0}
